@@ -600,6 +600,10 @@ func (r *Request) executeHandler() {
 
 		switch e := v.(type) {
 		case *Error:
+			if e == nil {
+				// A nil *Error is not an error to respond with
+				e = InternalError(errors.New("panic with nil *Error"))
+			}
 			if !r.replied {
 				r.error(e, r.meta())
 				// Return without logging as panicing with a *Error is considered
